@@ -117,8 +117,69 @@ func (p *Program) Pos(pos token.Pos) string {
 	return fmt.Sprintf("%s:%d:%d", ps.Filename, ps.Line, ps.Column)
 }
 
-// Func returns the SSA function pkg.name or pkg.(recv).name ("Policy.Assemble").
+// roleSignatures: unexported helpers the rules need, identified by their signature when they were renamed
+// (receiver; parameter types; result types).  A behaviour-preserving rename must not make a rule lose its subject.
+var roleSignatures = map[string]string{
+	PkgRoot + ".SyscallGroup.toSyscallsWithConditions": "SyscallGroup;;[]SyscallWithConditions,error",
+	PkgRoot + ".getSyscall":                            ";[]SyscallWithConditions,uint32;*SyscallWithConditions",
+	PkgRoot + ".Program.insertAfter":                   "Program;Index,bpf.Instruction;Index",
+	PkgRoot + ".Program.updateIndices":                 "Program;Index;",
+	PkgRoot + ".Program.resolveLabel":                  "Program;JumpIf,Label;uint8,error",
+	PkgRoot + ".Program.computeSkipN":                  "Program;JumpIf,Label;int",
+	PkgRoot + ".Program.currentIndex":                  "Program;;Index",
+	PkgArch + ".invert":                                ";map[int]string;map[string]int",
+}
+
+// SigKey renders a function's signature as "Recv;params;results" with package-less type names.
+func SigKey(f *ssa.Function) string {
+	q := func(pk *types.Package) string {
+		if pk.Name() == "bpf" {
+			return "bpf"
+		}
+		return ""
+	}
+	sig := f.Signature
+	recv := ""
+	if sig.Recv() != nil {
+		t := sig.Recv().Type()
+		if pt, ok := t.(*types.Pointer); ok {
+			t = pt.Elem()
+		}
+		recv = types.TypeString(t, q)
+	}
+	var ps, rs []string
+	for i := 0; i < sig.Params().Len(); i++ {
+		ps = append(ps, types.TypeString(sig.Params().At(i).Type(), q))
+	}
+	for i := 0; i < sig.Results().Len(); i++ {
+		rs = append(rs, types.TypeString(sig.Results().At(i).Type(), q))
+	}
+	return recv + ";" + strings.Join(ps, ",") + ";" + strings.Join(rs, ",")
+}
+
+// Func returns the SSA function pkg.name or pkg.(recv).name ("Policy.Assemble").  For the unexported helpers
+// listed in roleSignatures a unique function with the recorded signature is used when the name is gone.
 func (p *Program) Func(pkgPath, name string) *ssa.Function {
+	if f := p.funcByName(pkgPath, name); f != nil {
+		return f
+	}
+	want, ok := roleSignatures[pkgPath+"."+name]
+	if !ok {
+		return nil
+	}
+	var found *ssa.Function
+	for _, f := range p.SrcFuncs(pkgPath) {
+		if f.Parent() == nil && SigKey(f) == want {
+			if found != nil {
+				return nil // ambiguous
+			}
+			found = f
+		}
+	}
+	return found
+}
+
+func (p *Program) funcByName(pkgPath, name string) *ssa.Function {
 	sp := p.SSAPkg[pkgPath]
 	if sp == nil {
 		return nil
